@@ -119,6 +119,8 @@ func parseWorkerArgs(args []string) workerArgs {
 			w.race = v == "1"
 		case "out":
 			w.outDir = v
+		case "casefile":
+			caseFileArg = v
 		}
 	}
 	return w
@@ -196,7 +198,8 @@ func (s *Summary) addOutcome(idx int, sc *props.Scenario, out *props.Outcome, ex
 	s.Steps += int64(out.Stats.Steps)
 	s.Switches += int64(out.Stats.Switches)
 	s.Decisions += int64(out.Stats.Decisions)
-	if out.Stats.MaxInFlight >= 2 && out.Stats.Switches >= 1 {
+	historyRun := sc.Prop == "C10" && (out.Probes["target_reused"] > 0 || out.Stats.PoolRecycled > 0)
+	if out.Stats.MaxInFlight >= 2 && out.Stats.Switches >= 1 || historyRun {
 		s.Nontrivial++
 		s.Hashes = append(s.Hashes, out.Stats.Hash)
 	}
